@@ -17,6 +17,7 @@ from props.common import U, is_rejection, recording
 ID = "C14"
 FN = "segment_clip"
 RULE = (
+    "[decimal] one block: 3 clip starts off zero x 3 lengths x 4 decimal durations x 3 hops x the flag, lattice judged to 4 ulp. "
     "[environment] one block discovers, in a child interpreter with a recording os.environ, every environment variable the library's own source looks up "
     "while segmenting, and re-runs a workload with each of them unset / set to a perturbing value: identifiers and bounds must not move. "
     "full product: clip start x clip length (0 included) x duration x hop (None included) x include_incomplete, "
@@ -29,6 +30,10 @@ RULE = (
     "Outcome class = hop vs duration, hop divides length or not, number of windows of the model (0/1/2+), flag."
 )
 ASSUMPTIONS = [
+    "decimal block: durations and hops such as 0.1 / 0.7 on clips starting at 1.0, 100.0, 0.3 are not exact in binary; every returned "
+    "bound must lie within 4 ulp of the exact lattice point (Fraction arithmetic on the float inputs; start + i*hop evaluated in "
+    "doubles is within 1 ulp), and the number of windows between the count that fits with 1e-9 to spare and the count that fits "
+    "when 1e-9 is forgiven - which of two roundings decides an exactly touching last window is not judged",
     "coordinates, durations and hops are multiples of 1/8 with small magnitude: start + i*hop and start + duration "
     "are exact in binary floating point, so the Fraction model is the real-number answer and comparison is exact",
     "a window 'starts inside the clip' when clip start + i*hop < clip end (half-open, as in DESIGN.md): a "
